@@ -21,7 +21,9 @@ func (c *Conn) handleAuthenticate(tag string, dec *imapwire.Decoder) error {
 	var initialResp []byte
 	if dec.SP() {
 		var initialRespStr string
-		if !dec.ExpectText(&initialRespStr) {
+		// The initial response is base64 or "=": reading it as free-form text
+		// would swallow a trailing literal header
+		if !dec.ExpectAtom(&initialRespStr) {
 			return dec.Err()
 		}
 		var err error
